@@ -790,6 +790,14 @@ def rule_X4(ctx, info):
               "the remaining total of sample %s becomes %s, not (total - the index just given to the child)" % (show(tot.args[1]), show(tot.args[2])), construct=Q, stmt="total decrement")
     order_ok = ex.events.index(fill) < ex.events.index(tot)
     ctx.check(order_ok, "X4", "_set_max_assignment: pointer read before the decrement", f.where(tot.node), "the total is decremented before the pointer is read", construct=Q, stmt="read before decrement")
+    # an early return is allowed for a childless node only
+    from ..paths import guards_of as _guards_of
+
+    for rn in [n for n in ast.walk(f.node) if isinstance(n, ast.Return)]:
+        gs = [(u(t).replace(" ", ""), pol) for t, pol in _guards_of(rn, parents(f.node))]
+        fine = not gs and rn is f.node.body[-1] or any((t in ("len(children)==0", "notchildren", "len(children)<1") and pol) or (t in ("children", "len(children)>0", "len(children)!=0") and not pol) for t, pol in gs)
+        if gs or rn is not f.node.body[-1]:
+            ctx.check(fine, "X4", "_set_max_assignment: early return only for a node without children", f.where(rn), "the traceback returns early under %s: nodes with children never receive their indices" % [t for t, p in gs], construct=Q, stmt="early return")
     # the decrement happens for every sample: it sits in the same (innermost) sample loop as the pointer read
     pm0 = parents(f.node)
     tot_loops = [a for a in ancestors(tot.node, pm0) if isinstance(a, (ast.For, ast.While))]
@@ -1077,6 +1085,8 @@ SELFTEST = [
     {"name": "X5-divide-by-grid", "kind": "break", "rule": "X5", "file": _M, "old": "x / (num_dims - 1)", "new": "x / num_dims"},
     {"name": "X5-clonal-prev-plus", "kind": "break", "rule": "X5", "file": _M, "old": "clonal_prev -= ccf_dict[child]", "new": "clonal_prev += ccf_dict[child]"},
     # ---- own
+    {"name": "X4-early-return-for-nodes-with-children", "kind": "break", "rule": "X4", "file": _M, "old": "    if len(children) == 0:\n        return\n\n    child_total_idx", "new": "    if len(children) != 0:\n        return\n\n    child_total_idx"},
+    {"name": "X4-early-return-not-children", "kind": "benign", "file": _M, "old": "    if len(children) == 0:\n        return\n\n    child_total_idx", "new": "    if not children:\n        return\n\n    child_total_idx"},
     {"name": "X1-guard-keeps-minimum", "kind": "break", "rule": "X1", "file": _M, "old": "if val >= result[i]:", "new": "if val <= result[i]:"},
     {"name": "X1-result-starts-at-zero", "kind": "break", "rule": "X1", "file": _M, "old": "result = np.ones(grid_size) * -np.inf", "new": "result = np.zeros(grid_size)"},
     {"name": "X1-result-starts-at-plus-inf", "kind": "break", "rule": "X1", "file": _M, "old": "result = np.ones(grid_size) * -np.inf", "new": "result = np.ones(grid_size) * np.inf"},
